@@ -16,6 +16,7 @@
 // entry.  A temporal client with SEVERAL shards lives through a history of fan-out (get-roots,
 // a fault on every shard position) and routed (add-chain by NotAfter) calls (multishard_test.go);
 // also with several shards configured with ONE base URI and different keys (genSharedURI).
+// Every endpoint is also answered with LARGE bodies around powers of two (sizes_test.go).
 //
 // One case = the HTTP outcome(s) the transport produced (reconstructed from the transport's own
 // log), the oracle tables (signature pairs that verify under the configured key, verified HERE
@@ -58,6 +59,7 @@ func TestHarness(t *testing.T) {
 		genHistories(t, r, w, fx, configs, rep)
 		genMultiShard(t, r, w, fx, rep)
 		genSharedURI(t, r, w, fx, rep)
+		genSizes(t, r, w, fx, configs, rep)
 	}
 	w.Close()
 }
